@@ -671,7 +671,29 @@ def c19_reject_discipline(s: SCtx, I) -> None:
             if und:
                 s.note(f"reject/stop-after-400: {cons}: a branch after the 400 is not decided by constants, site left to the bounded rules framing/*")
                 continue
-            bad = [v for v in vis if v not in (g.exit, g.raise_exit) and not _allowed_after_reject(g.node(v))]
+            facts = {}
+            for t, lab in g.edge_guards(site):          # what the dominating guards say about plain boolean temporaries
+                te = g.node(t).ast
+                if isinstance(te, ast.Name):
+                    facts[te.id] = (lab == "T")
+            unknown_ret = False
+
+            def allowed(node):
+                nonlocal unknown_ret
+                if _allowed_after_reject(node):
+                    return True
+                st = node.ast
+                if node.kind == "stmt" and isinstance(st, ast.Return) and st.value is not None:
+                    try:
+                        return not I.ev(st.value, dict(facts))
+                    except Exception:
+                        unknown_ret = True
+                        return True
+                return False
+            bad = [v for v in vis if v not in (g.exit, g.raise_exit) and not allowed(g.node(v))]
+            if unknown_ret and not bad:
+                s.note(f"mustpass/stop-after-400: {cons}: the value returned after the 400 is not determined by the dominating guards, site left to the bounded rules framing/*")
+                continue
             s.check(not bad, "mustpass/stop-after-400", cons,
                     "after answering 400 the method goes on (state is changed / the request proceeds / a true result is returned): " + (src(g.node(bad[0]).ast)[:70] if bad else ""),
                     witness=g.describe(g.path(starts, bad, edge_ok=no_exc)) if bad else "")
